@@ -113,7 +113,19 @@ def run(ck):
             sl = f"as{k}"
             for (a, b), (i, j) in {(0, 0): (1, 1), (0, 2): (1, 0), (2, 0): (0, 1), (2, 2): (0, 0)}.items():
                 cmp("embed_singlet", f"C30/singlet/{sl}/entry{a}{b}", ("S", k, a, b, n, tag), blk[a, b], ref[i, j], dict(info, slice=(k, 0)))
-            cmp("embed_singlet", f"C30/singlet/{sl}/sigma-delta", ("Sd", k, n, tag), blk[3, 3], qns_sd[k - 1], dict(info, slice=(k, 0)))
+            sd_key = f"C30/singlet/{sl}/sigma-delta"
+            if k == 4 and abs(blk[3, 3] - qns_sd[k - 1]) > 1e-13 * max(1.0, abs(qns_sd[k - 1])):
+                # the known mechanism: ns+ evaluated with the qq variation slot [3] instead of the nsp slot [4];
+                # anything else in this entry is a different violation and must not hide behind the known key
+                v_alt = tuple(v7[:4]) + (v7[3],) + tuple(v7[5:])
+                try:
+                    alt = us.gamma_ns((nq, 0), 10101, n, nf, v_alt, fhm)[k - 1]
+                except Exception:
+                    alt = np.nan
+                same_mechanism = fhm and v7[3] != v7[4] and abs(blk[3, 3] - alt) <= 1e-12 * max(1.0, abs(alt))
+                if not same_mechanism:
+                    sd_key += "/other"
+            cmp("embed_singlet", sd_key, ("Sd", k, n, tag), blk[3, 3], qns_sd[k - 1], dict(info, slice=(k, 0)))
             # photon row and column, and every entry not in the map, vanish
             mask = np.ones((4, 4), bool)
             for a, b in ((0, 0), (0, 2), (2, 0), (2, 2), (3, 3)):
